@@ -510,10 +510,33 @@ Section Num.
     end.
 
   (* --- parse_keywords --- *)
+  (* importances are kept per particle designator (a later IMP entry for the
+     same particle -- the BUT part of LIKE n BUT -- replaces the earlier one);
+     the importance of the cell is the largest of them *)
+  Fixpoint sdrop (n : nat) (s : string) : string :=
+    match n, s with
+    | O, _ => s
+    | Datatypes.S m, String _ r => sdrop m r
+    | Datatypes.S _, EmptyString => EmptyString
+    end.
+  Fixpoint lstrip_colon (s : string) : string :=
+    match s with String ":" r => lstrip_colon r | _ => s end.
+  Definition particles (kw : string) : list string := split_on "," (lstrip_colon (sdrop 3 kw)).
+  Fixpoint set_particle (p : string) (v : T) (d : list (string * T)) : list (string * T) :=
+    match d with
+    | [] => [(p, v)]
+    | (q, w) :: r => if p =? q then (q, v) :: r else (q, w) :: set_particle p v r
+    end.
+  Definition max_vals (d : list (string * T)) : option T :=
+    match d with
+    | [] => None
+    | (_, v) :: r => Some (fold_left (fun a x => tmax a (snd x)) r v)
+    end.
+
   Record kws := mkKws {
     k_imp : option T; k_fill : option fillres; k_lat : option Z;
-    k_trcl : option nat; k_u : option Z }.
-  Definition kws0 : kws := mkKws None None None None None.
+    k_trcl : option nat; k_u : option Z; k_impd : list (string * T) }.
+  Definition kws0 : kws := mkKws None None None None None [].
 
   Fixpoint parse_kw (fuel : nat) (trs : list (Z * nat)) (l : list tok) (k : kws) : res kws :=
     match fuel with
@@ -528,13 +551,13 @@ Section Num.
               | [] => Err EIndex
               | v :: rest' =>
                   if float_lit (tsp v) then
-                    let i := match k_imp k with Some old => tmax (tval v) old | None => tval v end in
-                    parse_kw f trs rest' (mkKws (Some i) (k_fill k) (k_lat k) (k_trcl k) (k_u k))
+                    let d := fold_left (fun d p => set_particle p (tval v) d) (particles s) (k_impd k) in
+                    parse_kw f trs rest' (mkKws (max_vals d) (k_fill k) (k_lat k) (k_trcl k) (k_u k) d)
                   else Err EValue
               end
             else if contains_sub "fill" s then
               do (fr, rest') <- parse_fill (contains_char "*" s) trs rest;
-              parse_kw f trs rest' (mkKws (k_imp k) (Some fr) (k_lat k) (k_trcl k) (k_u k))
+              parse_kw f trs rest' (mkKws (k_imp k) (Some fr) (k_lat k) (k_trcl k) (k_u k) (k_impd k))
             else if contains_sub "lat" s then
               match rest with
               | [] => Err EIndex
@@ -543,19 +566,19 @@ Section Num.
                   | None => Err EParseCell
                   | Some z =>
                       if (z =? 1)%Z || (z =? 2)%Z
-                      then parse_kw f trs rest' (mkKws (k_imp k) (k_fill k) (Some z) (k_trcl k) (k_u k))
+                      then parse_kw f trs rest' (mkKws (k_imp k) (k_fill k) (Some z) (k_trcl k) (k_u k) (k_impd k))
                       else Err EParseCell
                   end
               end
             else if contains_sub "trcl" s then
               do (tr, rest') <- parse_trcl (contains_char "*" s) trs rest;
-              parse_kw f trs rest' (mkKws (k_imp k) (k_fill k) (k_lat k) (Some tr) (k_u k))
-            else if contains_char "u" s then
+              parse_kw f trs rest' (mkKws (k_imp k) (k_fill k) (k_lat k) (Some tr) (k_u k) (k_impd k))
+            else if s =? "u" then
               match rest with
               | [] => Err EIndex
               | v :: rest' =>
                   if float_lit (tsp v)
-                  then parse_kw f trs rest' (mkKws (k_imp k) (k_fill k) (k_lat k) (k_trcl k) (Some (Z.abs (tint v))))
+                  then parse_kw f trs rest' (mkKws (k_imp k) (k_fill k) (k_lat k) (k_trcl k) (Some (Z.abs (tint v))) (k_impd k))
                   else Err EValue
               end
             else if contains_sub "rho" s || contains_sub "mat" s then
